@@ -2,6 +2,7 @@
 nested serialisable fields and a registered third-party type."""
 from __future__ import annotations
 
+import collections
 import decimal
 import fractions
 import uuid
@@ -67,6 +68,22 @@ class Node3(Node2):
     def _from_json(cls, data, **kwargs):
         return cls(name=data["name"], payload=from_json(data["payload"]), friends=from_json(data["friends"]),
                    level=data["level"], extra=from_json(data["extra"]))
+
+
+@dataclass
+class IterNode(Node1):
+    """a serialisable object that is also iterable (unpackable): still an object, not a list"""
+
+    def __iter__(self):
+        return iter((self.name, self.payload))
+
+
+def _ser_deque(obj):
+    return {JSON_TYPE_NAME: "collections.deque", "items": to_json(list(obj))}
+
+
+def _deser_deque(data, **kwargs):
+    return collections.deque(from_json(data["items"]))
 
 
 def _ser_decimal(obj):
@@ -187,3 +204,4 @@ def register():
     reg.register(Tip, _ser_tip, _deser_tip)
     reg.register(EntityId, _ser_entity_id, _deser_entity_id)   # uuid.UUID itself is registered by krrood at import
     reg.register(fractions.Fraction, _ser_fraction, _deser_fraction)
+    reg.register(collections.deque, _ser_deque, _deser_deque)  # an iterable registered type
